@@ -33,10 +33,11 @@ type Checker struct {
 	ruleOrder  []string
 	floors     map[string]int
 	ordinals   map[string]int
+	absenceOf  map[string]bool // rules of the form "no X anywhere": see mergeViews
 }
 
 func newChecker(p *Prog, prop, tier string) *Checker {
-	return &Checker{P: p, Prop: prop, Tier: tier, RuleTexts: map[string]string{}, floors: map[string]int{}, ordinals: map[string]int{}}
+	return &Checker{P: p, Prop: prop, Tier: tier, RuleTexts: map[string]string{}, floors: map[string]int{}, ordinals: map[string]int{}, absenceOf: map[string]bool{}}
 }
 
 // rule registers a rule's text and its floor: the minimum number of instances
@@ -50,6 +51,11 @@ func (c *Checker) rule(id, text string, floor int) {
 }
 
 // key builds a line-free obligation key, adding an ordinal for repeats.
+// absence marks a rule as one that looks for a construct that must not occur. Such a rule passes
+// where the construct is out of its sight, so when a tree is analysed in two forms (analyse) it has
+// to pass in both.
+func (c *Checker) absence(id string) { c.absenceOf[id] = true }
+
 func (c *Checker) key(rule, fn, construct string) string {
 	base := rule + "/" + fn + "/" + construct
 	c.ordinals[base]++
